@@ -238,6 +238,9 @@ def main():
     # ---- builds
     if a.seed_eval:
         a.no_gate = True
+    if a.no_gate and OUT == VERIF:
+        # a run without the Coq gate is a development aid: it never overwrites the committed evidence / replays
+        _redirect_out(VERIF + "/.build/nogate-out")
         coq_built = True
         ok3, out3 = build_harness(flavours, link_to=spec.get("link_to", False))
         if not ok3:
@@ -381,6 +384,10 @@ def main():
     print(f"OK property={pid} tier={tier} programs={stats['programs']} steps={stats['steps']} "
           f"theorems={gate['discharged']}/{gate['obligations']} wall={wall:.0f}s")
     return 0
+
+def _redirect_out(path):
+    global OUT
+    OUT = path
 
 def _abbrev(prog):
     out = []
